@@ -181,32 +181,7 @@ def run(M, rep, tier, only=None):
             break
 
     # ------------------------------------------------------------------ R2
-    f = ctx.member("Container", "__contains__")
-    if f is None:
-        rep.bad(R2, "Container.__contains__", "required mechanism not found")
-    else:
-        bad = None
-        n = 0
-        for p in nctx.paths(f, "Container"):
-            if not p.normal:
-                continue
-            ent = decided(p, lambda a: a[0] == "truthy" and a[1][0] == "hasattr")
-            if ent is not True:
-                continue
-            rv = p.terminal[1]
-            if is_const(rv) and rv.t[1] is False:
-                continue
-            n += 1
-            terms = [rv.t] + [a for a, v in p.decisions]
-            dep_id = any(x and x[0] == "rd" and x[1] == "attr" and x[3] == ("const", "entity_id") and
-                         "item" in params_of(x[2]) for t in terms for x in subterms(t))
-            if not dep_id:
-                bad = p
-                break
-        rep.check(R2, "Container.__contains__", bad is None and n > 0,
-                  "membership of an entity is decided without looking at its id (by name only): an entity of the same name "
-                  "from another parent is accepted as a member" if bad else "no entity-membership path",
-                  site=f.file + ":%d" % f.node.lineno, detail=describe_path(bad) if bad else None)
+    container_identity(M, rep, R2, ctx, nctx)
 
     # ------------------------------------------------------------------ R3
     rcfg = Config(M, mode="raw")
@@ -422,3 +397,33 @@ def run(M, rep, tier, only=None):
                 nref += 1
         rep.check(R5, "SetDimension.labels@set", bad is None and nref > 0, bad[1] if bad else "no refusal for linked dimensions",
                   site=s.file + ":%d" % s.node.lineno, detail=describe_path(bad[0]) if bad else None)
+
+
+def container_identity(M, rep, rid, ctx, nctx):
+    """membership of an entity in a Container depends on the entity's id on every path that can answer True"""
+    f = ctx.member("Container", "__contains__")
+    if f is None:
+        rep.bad(rid, "Container.__contains__", "required mechanism not found")
+        return
+    bad = None
+    n = 0
+    for p in nctx.paths(f, "Container"):
+        if not p.normal:
+            continue
+        ent = decided(p, lambda a: a[0] == "truthy" and a[1][0] == "hasattr")
+        if ent is not True:
+            continue
+        rv = p.terminal[1]
+        if is_const(rv) and rv.t[1] is False:
+            continue
+        n += 1
+        terms = [rv.t] + [a for a, v in p.decisions]
+        dep_id = any(x and x[0] == "rd" and x[1] == "attr" and x[3] == ("const", "entity_id") and
+                     "item" in params_of(x[2]) for t in terms for x in subterms(t))
+        if not dep_id:
+            bad = p
+            break
+    rep.check(rid, "Container.__contains__", bad is None and n > 0,
+              "membership of an entity is decided without looking at its id (by name only): an entity of the same name "
+              "from another parent is accepted as a member" if bad else "no entity-membership path",
+              site=f.file + ":%d" % f.node.lineno, detail=describe_path(bad) if bad else None)
